@@ -193,8 +193,16 @@ def strand(ctx: Ctx):
     ctx.check_expr("strand", "stripe/measure.py::StripeMeasures._cube_measures", e, "CubeMeasures(self._cube, self._rows_dimension, self._ca_as_0th, self._slice_idx)")
     cm = ctx.repo.cls(SCM, "CubeMeasures")
     for name in ("unweighted_cube_counts", "weighted_cube_counts"):
-        body = SUMMARIZER.summarize(ctx.repo.lookup(cm, name).node)
-        tail = [u(a) for a in body.args[-3:]] if isinstance(body, ast.Call) else None
+        from .common import positional_args
+
+        body = expand(ctx.repo, cm, name, stop=lambda mm: mm.kind in ("lazyproperty", "property"))
+        calls = [l for _g, l in strip_ifexp_paths(body) if isinstance(l, ast.Call) and u(l.func).endswith(".factory")]
+        callee = ctx.repo.lookup(ctx.repo.cls(SCM, "_BaseCubeCounts"), "factory")
+        args = positional_args(ctx, calls[0], callee) if calls and callee is not None else None
+        if args is None:
+            ctx.undecided("strand", f"{SCM}::CubeMeasures.{name}", u(body)[:100], "factory(counts, rows_dimension, ca_as_0th, slice_idx)")
+            continue
+        tail = [u(a) for a in args[-3:]]
         ctx.ob("strand", f"{SCM}::CubeMeasures.{name}", tail, "['self._rows_dimension', 'self._ca_as_0th', 'self._slice_idx']", tail == ["self._rows_dimension", "self._ca_as_0th", "self._slice_idx"])
     # sibling note: only the counts factory honours CA-as-0th
     others = []
